@@ -147,5 +147,6 @@ PROPS = {
                  "re-run once in isolation; only a repeated miss is a violation. evaluations = cases; non-trivial = janitor configured with >= 1 expiring entry, or >= 2 caches dropped; "
                  "distinct by hash of the configuration.",
                  assumptions=["Real time and the real GC: deadlines (5 s / 10 s) are > 100x the latencies measured in this sandbox (18 ms / 6 ms)."]),
-    "C13": instr([part("e2", "^TestC13$", 450, 2500)], E2_RULE + "Weights on Clear, Range, resize triggers, re-entrant callbacks. Oracle: scheduler deadlock detector (some thread unfinished, none runnable), no-progress detector (step budget 60x the non-preemptive run + 20000), quiescent read-back touching every bucket lock. " + LIN),
+    "C13": instr([part("e2", "^TestC13$", 450, 2500), part("reenter", "^TestC13Reenter$", 500, 20000)], E2_RULE + "Weights on Clear, Range, resize triggers, re-entrant callbacks. Oracle: scheduler deadlock detector (some thread unfinished, none runnable), no-progress detector (step budget 60x the non-preemptive run + 20000), quiescent read-back touching every bucket lock. " + LIN +
+                 " Part `reenter` (engine E2R): generated caches whose evicted callback calls back with 1-3 calls drawn from the WHOLE cache vocabulary (Set, GetOrSet, Compute, Delete, GetAndDelete, DeleteExpired, Clear, Range, Items, Count, SetEvictedCallback, SetDefaultExpiration, ...; nesting capped at two levels) and whose Range visitors do the same, under 1-3 threads of removers and other calls on four keys with expired-uncleaned entries, each under every non-preemptive rotation plus random-walk schedules; the effects of re-entrant calls are not modelled, the oracle is C13's own: every call returns (no deadlock, no spinning, no panic), the quiescent read-back returns, every pair the callback received was stored at some time. Non-trivial there = the callback really made a re-entrant call."),
 }
